@@ -77,7 +77,7 @@ func VerifC12Sync() {
 		return
 	}
 	sp := u.SearchParams()
-	depth := vnd.Param("C12.Depth", 2, 3)
+	depth := vnd.Param("C12.Depth", 2, 2)
 	k := vnd.Param("C12.K", 2, 3)
 	for i := 0; i < depth; i++ {
 		var arg string
